@@ -373,3 +373,212 @@ def generate(scratch_repo, log):
         log.append("R3 %s: appended `pub(crate) use self::state::__verif as %s` (cfg(kani))" % (mod_rs, alias))
     # record which arms exist for the harness side (lost arms -> obligations undecided, not violated)
     return [], text
+
+
+# ======================================================================================
+# R3b: attribute reader / writer arms (rbx_types/src/attributes/{writer,reader}.rs)
+#   writer.rs  write_attributes:  for (name, variant) in map { <HEAD> match variant { Variant::X(..) => BODY, .. } }
+#   reader.rs  read_attributes:   for _ in 0..len { <HEAD> let value = match ty { VariantType::X => BODY, .. }; .. }
+# Each arm `PATTERN => BODY` is copied verbatim into a single-arm `match`; the two HEAD regions
+# (entry name + type id) are copied verbatim into functions of their own. Dropped: the loop over
+# the BTreeMap, `attributes.insert(key, value)`, the count prefix (covered for the empty map by
+# calling the real functions).
+# ======================================================================================
+
+def split_match_arms(body):
+    """Split the inside of a `match x { ... }` into (pattern, arm_text) at depth 0."""
+    arms = []
+    i = 0
+    n = len(body)
+
+    def skip_ws_comments(i):
+        while i < n:
+            if body[i].isspace():
+                i += 1
+            elif body[i:i + 2] == "//":
+                j = body.find("\n", i)
+                i = n if j < 0 else j + 1
+            else:
+                break
+        return i
+
+    while True:
+        i = skip_ws_comments(i)
+        if i >= n:
+            break
+        start = i
+        # pattern up to `=>` at depth 0
+        depth = 0
+        while i < n:
+            c = body[i]
+            if c == '"':
+                i = _skip_string(body, i)
+                continue
+            if c in "([{":
+                depth += 1
+            elif c in ")]}":
+                depth -= 1
+            elif c == "=" and body[i:i + 2] == "=>" and depth == 0:
+                break
+            i += 1
+        if i >= n:
+            raise LostAnchor("R3b: arm without `=>`")
+        pattern = body[start:i].strip()
+        i += 2
+        # body up to `,` at depth 0 (or end); a block body may be followed by a postfix (.into())
+        depth = 0
+        bstart = i
+        while i < n:
+            c = body[i]
+            if c == '"':
+                i = _skip_string(body, i)
+                continue
+            if c == "'":
+                m = re.match(r"'(\\.[^']*|[^\\'])'", body[i:])
+                i += len(m.group(0)) if m else 1
+                continue
+            if c == "/" and body[i:i + 2] == "//":
+                j = body.find("\n", i)
+                i = n if j < 0 else j
+                continue
+            if c in "([{":
+                depth += 1
+            elif c in ")]}":
+                depth -= 1
+                if depth == 0 and c == "}":
+                    # block ended: arm ends here unless a postfix / comma follows
+                    j = skip_ws_comments(i + 1)
+                    if j < n and body[j] == ".":
+                        i += 1
+                        continue
+                    if j < n and body[j] == ",":
+                        i = j
+                        break
+                    i += 1
+                    break
+            elif c == "," and depth == 0:
+                break
+            i += 1
+        arm_body = body[bstart:i].strip()
+        arms.append((pattern, arm_body))
+        if i < n and body[i] == ",":
+            i += 1
+    return arms
+
+
+def _fn_region(src, fn_rx, what):
+    m = re.search(fn_rx, src)
+    if not m:
+        raise LostAnchor("R3b: %s not found" % what)
+    k = src.index("{", m.end() - 1)
+    e = match_brace(src, k)
+    return src[k + 1:e]
+
+
+def extract_attr_writer(src):
+    body = _fn_region(src, r"pub\(crate\)\s+fn\s+write_attributes<W:\s*Write>\s*\(", "write_attributes")
+    m = re.search(r"for\s*\(name,\s*variant\)\s*in\s*map\s*\{", body)
+    if not m:
+        raise LostAnchor("R3b: writer entry loop not found")
+    k = m.end() - 1
+    e = match_brace(body, k)
+    loop = body[k + 1:e]
+    mm = re.search(r"match\s+variant\s*\{", loop)
+    if not mm:
+        raise LostAnchor("R3b: `match variant {` not found")
+    head = loop[:mm.start()]
+    mk = mm.end() - 1
+    me = match_brace(loop, mk)
+    arms = {}
+    for pat, abody in split_match_arms(loop[mk + 1:me]):
+        vm = re.match(r"Variant::(\w+)\s*\(", pat)
+        if vm:
+            arms[vm.group(1)] = (pat, abody)
+    return head, arms
+
+
+def extract_attr_reader(src):
+    body = _fn_region(src, r"pub\(crate\)\s+fn\s+read_attributes<R:\s*Read>\s*\(", "read_attributes")
+    m = re.search(r"for\s+_\s+in\s+0\.\.len\s*\{", body)
+    if not m:
+        raise LostAnchor("R3b: reader entry loop not found")
+    k = m.end() - 1
+    e = match_brace(body, k)
+    loop = body[k + 1:e]
+    mm = re.search(r"let\s+value\s*=\s*match\s+ty\s*\{", loop)
+    if not mm:
+        raise LostAnchor("R3b: `let value = match ty {` not found")
+    head = loop[:mm.start()]
+    mk = mm.end() - 1
+    me = match_brace(loop, mk)
+    arms = {}
+    for pat, abody in split_match_arms(loop[mk + 1:me]):
+        vm = re.match(r"VariantType::(\w+)$", pat)
+        if vm:
+            arms[vm.group(1)] = (pat, abody)
+    return head, arms
+
+
+def gen_attr_writer(head, arms):
+    out = ['''
+// ---- R3b: write_attributes, entry head (name + type id), verbatim
+pub(crate) fn aw_head<W: Write>(name: &String, variant: &Variant, mut writer: W) -> Result<(), AttributeError> {
+%s
+    Ok(())
+}
+''' % head]
+    for name in sorted(arms):
+        pat, body = arms[name]
+        out.append('''
+// R3b: arm `%(pat)s` of write_attributes, verbatim
+pub(crate) fn aw_%(n)s<W: Write>(variant: &Variant, mut writer: W) -> Result<(), AttributeError> {
+    match variant {
+        %(pat)s => %(body)s,
+        _ => unreachable!(),
+    }
+    Ok(())
+}
+''' % {"n": name, "pat": pat, "body": body})
+    return "\n".join(out)
+
+
+def gen_attr_reader(head, arms):
+    out = ['''
+// ---- R3b: read_attributes, entry head (name + type id), verbatim
+pub(crate) fn ar_head<R: Read>(mut value: R) -> Result<(String, VariantType), AttributeError> {
+%s
+    Ok((key, ty))
+}
+''' % head]
+    for name in sorted(arms):
+        pat, body = arms[name]
+        out.append('''
+// R3b: arm `%(pat)s` of read_attributes, verbatim
+pub(crate) fn ar_%(n)s<R: Read>(mut value: R) -> Result<Variant, AttributeError> {
+    let ty = %(pat)s;
+    let value: Variant = match ty {
+        %(pat)s => %(body)s,
+        _ => unreachable!(),
+    };
+    Ok(value)
+}
+''' % {"n": name, "pat": pat, "body": body})
+    return "\n".join(out)
+
+
+_generate_binary = generate
+
+
+def generate(scratch_repo, log):  # noqa: F811
+    obs, text = _generate_binary(scratch_repo, log)
+    w = os.path.join(scratch_repo, "rbx_types", "src", "attributes", "writer.rs")
+    r = os.path.join(scratch_repo, "rbx_types", "src", "attributes", "reader.rs")
+    with open(w) as fh:
+        whead, warms = extract_attr_writer(fh.read())
+    with open(r) as fh:
+        rhead, rarms = extract_attr_reader(fh.read())
+    log.append("R3b attributes/writer.rs: entry head + %d arms extracted verbatim: %s" % (len(warms), " ".join(sorted(warms))))
+    log.append("R3b attributes/reader.rs: entry head + %d arms extracted verbatim: %s" % (len(rarms), " ".join(sorted(rarms))))
+    text[("rbx_types", "src/attributes/writer.rs")] = gen_attr_writer(whead, warms)
+    text[("rbx_types", "src/attributes/reader.rs")] = gen_attr_reader(rhead, rarms)
+    return obs, text
